@@ -862,6 +862,34 @@ def add_model_check(batch, N, i, g, real_nodes, outcome):
               c_bool(outcome == "accepted"))
 
 
+def producer_lattice(rng):
+    """2-4 nodes producing subsets of two shared names, reading each other's values in random ways, some ordered by
+    emit / wait_for, optionally behind an exclusive gate: whether every shared name is mutex-or-ordered is decided by
+    Validate.valid (proved equivalent to the declarative WF), not known to the generator."""
+    k = rng.randint(2, 4)
+    shared = ["sx", "sy"]
+    nodes = []
+    for i in range(k):
+        outs = [f"u{i}"] + [v for v in shared if rng.random() < 0.6]
+        ins = [f"in{i}"]
+        for v in shared + [f"u{j}" for j in range(k) if j != i]:
+            if rng.random() < 0.3 and v not in outs:
+                ins.append(v)
+        n = fnode(f"P{i}", ins, outs, {p: INT for p in ins}, {o: INT for o in outs})
+        if rng.random() < 0.3:
+            n["emit"] = [f"sig{i}"]
+        nodes.append(n)
+    for i, n in enumerate(nodes):
+        sigs = [f"sig{j}" for j, m in enumerate(nodes) if j != i and m["emit"]]
+        if sigs and rng.random() < 0.4:
+            n["wait_for"] = [rng.choice(sigs)]
+    if k >= 2 and rng.random() < 0.3:
+        a, b = rng.sample([n["name"] for n in nodes], 2)
+        nodes.append(gate("G", "ifelse", ["gin"], [a, b], {"gin": INT}))
+    rng.shuffle(nodes)
+    return {"nodes": nodes, "name": "lattice", "strict": False, "edges": None}
+
+
 def run(ctx):
     rng = ctx.rng
     N = Names()
@@ -925,17 +953,44 @@ def run(ctx):
                 ctx.violation("harness", f"cannot describe the graph to the model: {e}", case=case)
         if len(samples) < 2:
             samples.append({"nodes": [n["name"] for n in g["nodes"]], "explicit": g.get("edges") is not None, "strict": g.get("strict")})
+    # graphs whose validity the generator does not know: the proved decision procedure is the oracle
+    lattice = set()
+    for _ in range(ctx.n(150, 2500)):
+        g = producer_lattice(rng)
+        oc, detail, real = construct(g)
+        n_eval += 1
+        if real is None or oc not in ("accepted", "config"):
+            if oc != "node-error":
+                ctx.violation("oracle", f"the constructor neither accepted the graph nor raised GraphConfigError: {detail}", case={"graph": g})
+            continue
+        dist["outcomes"]["lattice_" + oc] = dist["outcomes"].get("lattice_" + oc, 0) + 1
+        try:
+            add_model_check(batch, N, ci, g, real, oc)
+            cases[ci] = ({"graph": g, "stream": "producer lattice"}, oc)
+            lattice.add(ci)
+            ci += 1
+        except ValueError as e:
+            ctx.violation("harness", f"cannot describe the graph to the model: {e}", case={"graph": g})
     res = batch.run()
     if res["error"]:
         ctx.violation("harness", res["error"])
     for (k, code, mv, real, mexp) in res["failed"]:
         case, oc = cases[k]
-        ctx.violation("correspondence", f"Graph(...) outcome {oc!r} but Validate.valid = {mv.split(':')[0].strip()}", case=case)
+        if k in lattice:
+            # Validate.valid <-> the declarative WF is a theorem (C19_validate_spec), so this is the specification speaking
+            what = ("the constructor ACCEPTED a graph that is not well-formed (some shared output name has producers that are neither "
+                    "mutually exclusive nor ordered, or another structural rule fails)") if oc == "accepted" else \
+                   "the constructor REJECTED a well-formed graph (every shared output name is mutex-or-ordered and no other rule fails)"
+            ctx.violation("oracle", what, case=case)
+        else:
+            ctx.violation("correspondence", f"Graph(...) outcome {oc!r} but Validate.valid = {mv.split(':')[0].strip()}", case=case)
     ctx.coverage.update(
         evaluations=n_eval + tcov["pairs"], distinct_nontrivial=len(nontrivial) + tcov["compatible_pairs"],
         rule="valid graphs from fragments (chain with shared parameter and emit/wait_for, exclusive ifelse/route branches with a downstream-exclusive producer, "
              "ordered producers via emit/wait_for or an intermediate value, cycle, multi-target route, interrupt, nested graph up to depth 2 with renamed output), "
              "auto or explicit edges, strict types on/off, node order shuffled; flaw classes x positions (capped per class) at every nesting level; "
+             "producer lattices (2-4 nodes producing subsets of two shared names with random cross-reads, emit/wait_for and an optional exclusive gate) "
+             "decided by the proved procedure; "
              "type universe: classes, Any, unions (both syntaxes), generics depth <= 2, Annotated, TypeVars, NoAnnotation, Unresolvable x all ordered pairs; "
              "non-trivial = distinct (flaw class, nested?, explicit?, strict?) + compatible type pairs",
         distribution={**dist, "types": tcov}, samples=samples, model_checks=len(batch))
